@@ -13,6 +13,7 @@ def or_operands(e):
 def check_exists(facts, fn, expr_enum="Expression", op_enum="Operator"):
     """Returns dict(ok, problems[], leaf (the Action arm body), hidden (variants behind wildcard))."""
     problems = []
+    accounted = {fn.key}
     name = fn.name
     body = rx.tail_expr(fn.body)
     stmts = fn.body["stmts"]
@@ -66,6 +67,7 @@ def check_exists(facts, fn, expr_enum="Expression", op_enum="Operator"):
                 ht = rx.tail_expr(h.body)
                 if len(hp) == 1 and ht is not None and len(h.body["stmts"]) == 1 and ht["k"] == "match" and rx.is_var(ht["scrut"], "self"):
                     holds = hp[0]
+                    accounted.add(hk)
                     ob = dict(ht, scrut={"k": "path", "segs": [binds[0]], "gen": [None], "l": ht.get("l")})
         if ob["k"] != "match" or not binds:
             problems.append("Operator arm is not a match on the operator")
@@ -117,4 +119,4 @@ def check_exists(facts, fn, expr_enum="Expression", op_enum="Operator"):
             for vn in ovars:
                 if vn not in seen:
                     problems.append("operator variant %s has no arm" % vn)
-    return dict(ok=not problems, problems=problems, leaf=leaf, hidden=hidden)
+    return dict(ok=not problems, problems=problems, leaf=leaf, hidden=hidden, accounted=sorted(accounted))
